@@ -48,3 +48,10 @@ Theorem C10_dispatch_total : forallb (fun row => match snd row with
     | Some cls => mem_str cls clef_classes | None => true end) clef_dispatch = true.
 Proof. exact dispatch_total. Qed.
 Print Assumptions C10_dispatch_total.
+
+(* obligation regenerated from the source on every run: the code this property runs through keeps exactly the state the
+   model knows (no new attribute, class-level table, module-level binding or caching decorator), see proofs/State*Proofs.v *)
+From KV Require Import StateGen StateBase StatePitchProofs StateExportProofs.
+Theorem C10_state_as_modelled : state_pitch = modelled_state_pitch /\ state_export = modelled_state_export.
+Proof. exact (conj state_pitch_as_modelled state_export_as_modelled). Qed.
+Print Assumptions C10_state_as_modelled.
